@@ -793,4 +793,7 @@ def run(run, model):
     run.try_rule(r09_14, model)
     run.try_rule(r09_15, model)
     run.try_rule(r09_16, model)
+    # no new place reverses, swaps or sorts a sequence (G-SEQ over resolved calls)
+    from rules import gseq
+    run.try_rule(gseq.r_seq, model, "R09.17")
     run.assume("children of a Lift IR variant are declared in source evaluation order (callee, arguments; lhs, rhs; receiver, arguments) - read and confirmed for ECall, EBinary, EDynCall")
